@@ -1,5 +1,6 @@
 import KoordVerif.Model.C18
 import KoordVerif.Model.C18Usage
+import KoordVerif.Model.C18Pools
 /-
 C18 — property theorems (DESIGN.md §4 C18).  All statements are about the executable model
 `Model/C18.lean`, for arbitrary threshold quantities, usages, pod sets, filter/evictor answers,
@@ -1472,5 +1473,278 @@ example : podOrder (fun i => if i = 5 then [4, 0] else if i = 6 then [2, 7] else
     [⟨5, true, true, [], [], true, true, true⟩, ⟨6, false, true, [], [], true, true, true⟩,
      ⟨7, false, true, [], [], true, true, true⟩] = [7, 6, 5] := by decide
 example : usageScore [(500, 1000, 1), (3, 4, 1), (0, 0, 5)] = 178 := by decide
+
+
+/-! ## several node pools (extension round 2)
+
+Conversion of the v1alpha2 document (the implicit default pool comes FIRST, the user's entries keep
+their order), `filterNodes` / `processedNodes`, and the loop of Balance: a node evicted from by one
+pool - in the node pass or in the prod pass - is taken by no later pool of the same Balance call, so
+the running estimate the evicting pool compared with its high threshold (`round_evict_sound`,
+`evictLoop_replay`) is the node's estimate over the whole call. -/
+
+/-! ### conversion -/
+
+theorem convertPools_default_first (a : VArgs) :
+    (convertPools a).head? = some (topPool a) ∧ (topPool a).name = 0 ∧ (topPool a).sel = a.sel ∧
+    (topPool a).low = a.low ∧ (topPool a).high = a.high ∧ (topPool a).plow = a.plow ∧
+    (topPool a).phigh = a.phigh := by
+  simp [convertPools, topPool]
+
+theorem convertPools_keeps_order (a : VArgs) :
+    (convertPools a).length = a.pools.length + 1 ∧
+    (convertPools a).tail.map (·.name) = a.pools.map (·.name) ∧
+    (convertPools a).tail.map (·.sel) = a.pools.map (·.sel) ∧
+    (convertPools a).tail.map (·.dev) = a.pools.map (·.dev) := by
+  simp [convertPools, userPools, VPool.toC, defaultPool, List.map_map, Function.comp_def]
+
+theorem defaultPool_inherits (low high plow phigh : Option IMap) (w : IMap) (c : ACond) (p : VPool) :
+    let q := defaultPool low high plow phigh w c p
+    q.low = (match p.low with | some m => some m | none => low) ∧
+    q.high = (match p.high with | some m => some m | none => high) ∧
+    q.plow = (match p.plow with | some m => some m | none => plow) ∧
+    q.phigh = (match p.phigh with | some m => some m | none => phigh) ∧
+    q.wts = some (match p.wts with | some m => m | none => w) ∧
+    q.name = p.name ∧ q.sel = p.sel := by
+  obtain ⟨name, sel, dev, l, h, pl, ph, wts, cond⟩ := p
+  cases l <;> cases h <;> cases pl <;> cases ph <;> cases wts <;> simp [defaultPool]
+
+theorem convertPools_selectorless_only_first (a : VArgs) (h : ∀ p ∈ a.pools, p.sel.isSome = true) :
+    ∀ q ∈ (convertPools a).tail, q.sel.isSome = true := by
+  intro q hq
+  simp only [convertPools, List.tail_cons, userPools, List.mem_map] at hq
+  obtain ⟨p, hp, rfl⟩ := hq
+  simpa [VPool.toC, defaultPool] using h p hp
+
+/-! ### filterNodes -/
+
+theorem filterNodes_sub (sel : Option Labels) (nodes : List (Nat × Labels)) (pr : List Nat) (id : Nat)
+    (h : id ∈ filterNodes sel nodes pr) : id ∈ nodes.map (·.1) := by
+  simp only [filterNodes, List.mem_map, List.mem_filter] at h
+  obtain ⟨n, ⟨hn, _⟩, rfl⟩ := h
+  exact List.mem_map.mpr ⟨n, hn, rfl⟩
+
+/-- EVERY pool - with or without selector - leaves the processed nodes alone. -/
+theorem filterNodes_skips_processed (sel : Option Labels) (nodes : List (Nat × Labels)) (pr : List Nat) (id : Nat)
+    (h : id ∈ filterNodes sel nodes pr) : id ∉ pr := by
+  simp only [filterNodes, List.mem_map, List.mem_filter] at h
+  obtain ⟨n, ⟨_, hc⟩, rfl⟩ := h
+  simp only [Bool.and_eq_true, Bool.not_eq_true', List.contains_eq_mem, decide_eq_false_iff_not] at hc
+  exact hc.1
+
+/-- a pool without selector takes exactly the nodes not yet processed. -/
+theorem filterNodes_nil (nodes : List (Nat × Labels)) (pr : List Nat) :
+    filterNodes none nodes pr = (nodes.filter fun n => !pr.contains n.1).map (·.1) := by
+  simp [filterNodes]
+
+/-- with a selector: the matching nodes not yet processed. -/
+theorem filterNodes_mem (s : Labels) (nodes : List (Nat × Labels)) (pr : List Nat) (id : Nat) :
+    id ∈ filterNodes (some s) nodes pr ↔ ∃ n ∈ nodes, n.1 = id ∧ id ∉ pr ∧ selMatches s n.2 = true := by
+  simp only [filterNodes, List.mem_map, List.mem_filter, Bool.and_eq_true, Bool.not_eq_true',
+    List.contains_eq_mem, decide_eq_false_iff_not]
+  constructor
+  · rintro ⟨n, ⟨hn, hp, hm⟩, rfl⟩; exact ⟨n, hn, rfl, hp, hm⟩
+  · rintro ⟨n, hn, rfl, hp, hm⟩; exact ⟨n, ⟨hn, hp, hm⟩, rfl⟩
+
+/-! ### the loop of Balance -/
+
+section loop
+variable {σ ε P : Type} (selOf : P → Option Labels) (run : Nat → P → List Nat → σ → PoolOut σ ε)
+  (nodes : List (Nat × Labels))
+
+/-- every segment is one `run` call on the filtered nodes. -/
+theorem balancePools_seg_run : ∀ (ps : List P) (i : Nat) (st : σ) (pr : List Nat),
+    ∀ s ∈ (balancePools selOf run nodes i ps st pr).2,
+      ∃ (j : Nat) (p : P) (st0 : σ) (pr0 : List Nat), p ∈ ps ∧ s.ids = filterNodes (selOf p) nodes pr0 ∧
+        s.evs = (run j p s.ids st0).evs ∧ s.sources = (run j p s.ids st0).sources := by
+  intro ps
+  induction ps with
+  | nil => intro i st pr s hs; simp [balancePools] at hs
+  | cons p ps ih =>
+    intro i st pr s hs
+    simp only [balancePools] at hs
+    split at hs
+    · obtain ⟨j, q, st0, pr0, hq, h⟩ := ih _ _ _ s hs
+      exact ⟨j, q, st0, pr0, List.mem_cons_of_mem _ hq, h⟩
+    · simp only [List.mem_cons] at hs
+      rcases hs with rfl | hs
+      · exact ⟨i, p, st, pr, List.mem_cons_self, rfl, rfl, rfl⟩
+      · obtain ⟨j, q, st0, pr0, hq, h⟩ := ih _ _ _ s hs
+        exact ⟨j, q, st0, pr0, List.mem_cons_of_mem _ hq, h⟩
+
+/-- no pool takes a node that is already in `processedNodes`. -/
+theorem balancePools_processed_skipped : ∀ (ps : List P) (i : Nat) (st : σ) (pr : List Nat),
+    ∀ s ∈ (balancePools selOf run nodes i ps st pr).2, ∀ id ∈ s.ids, id ∉ pr := by
+  intro ps
+  induction ps with
+  | nil => intro i st pr s hs; simp [balancePools] at hs
+  | cons p ps ih =>
+    intro i st pr s hs id hid
+    simp only [balancePools] at hs
+    split at hs
+    · exact ih _ _ _ s hs id hid
+    · simp only [List.mem_cons] at hs
+      rcases hs with rfl | hs
+      · exact filterNodes_skips_processed _ nodes pr id hid
+      · intro hmem
+        exact ih _ _ _ s hs id hid (List.mem_append_left _ hmem)
+
+/-- a node that one pool inserted into `processedNodes` is in the node set of no later pool of the
+    same Balance call - whatever the selectors and the order of the pools. -/
+theorem balancePools_sources_once : ∀ (ps : List P) (i : Nat) (st : σ) (pr : List Nat),
+    ((balancePools selOf run nodes i ps st pr).2).Pairwise (fun s1 s2 => ∀ id ∈ s1.sources, id ∉ s2.ids) := by
+  intro ps
+  induction ps with
+  | nil => intro i st pr; simp [balancePools]
+  | cons p ps ih =>
+    intro i st pr
+    simp only [balancePools]
+    split
+    · exact ih _ _ _
+    · refine List.Pairwise.cons ?_ (ih _ _ _)
+      intro s2 hs2 id hid hid2
+      exact balancePools_processed_skipped selOf run nodes ps _ _ _ s2 hs2 id hid2 (List.mem_append_right _ hid)
+
+end loop
+
+/-- non-vacuous: two overlapping pools, the second one without selector; the node the first pool
+    reports as a source is left out of the second pool's node set, the other node is not. -/
+theorem balancePools_sources_once_witness :
+    ((balancePools (fun (s : Option Labels) => s)
+        (fun _ _ ids (st : Unit) => (⟨st, ([] : List Unit), ids.take 1⟩ : PoolOut Unit Unit))
+        [(0, [(0, 0)]), (1, [(0, 0)]), (2, [(0, 1)])] 0 [some [(0, 0)], none] () []).2).map (·.ids)
+      = [[0, 1], [1, 2]] := by
+  decide
+
+/-! ### with processOneNodePool = runRound -/
+
+theorem runRound_exit_evs (cfg : Cfg) (st : St) (r : RoundIn) :
+    (runRound cfg st r).exit ≠ 0 → (runRound cfg st r).evs = [] := by
+  unfold runRound
+  split
+  · intro _; rfl
+  simp only
+  split
+  · intro _; rfl
+  split
+  · intro _; rfl
+  split
+  · intro _; rfl
+  split
+  · intro _; rfl
+  split
+  · intro _; rfl
+  intro h; exact absurd rfl h
+
+theorem runRound_evs_exit (cfg : Cfg) (st : St) (r : RoundIn) (e : Ev)
+    (he : e ∈ (runRound cfg st r).evs) : (runRound cfg st r).exit = 0 := by
+  apply Classical.byContradiction
+  intro h
+  rw [runRound_exit_evs cfg st r h] at he
+  simp at he
+
+/-- every Evict call - node pass or prod pass - comes from a node of the pool's round that the pool
+    inserts into `processedNodes`. -/
+theorem poolStep_evs_sources (cfg : Cfg) (st : St) (r : RoundIn) (e : Ev) (he : e ∈ (poolStep cfg r st).evs) :
+    (∃ n ∈ r.nodes, n.id = e.node) ∧ e.node ∈ (poolStep cfg r st).sources := by
+  simp only [poolStep] at he ⊢
+  have hs := round_evict_sound cfg st r e he
+  obtain ⟨_, _, _, n, hn, hid, hcls, _⟩ := hs
+  refine ⟨⟨n, hn, hid⟩, ?_⟩
+  rw [if_pos (runRound_evs_exit cfg st r e he)]
+  simp only [poolSources, List.mem_append, List.mem_map]
+  cases hp : e.prod with
+  | false =>
+    simp only [hp] at hcls
+    exact Or.inl ⟨n, by simp [ofClass, hn, hcls], hid⟩
+  | true =>
+    simp only [hp] at hcls
+    exact Or.inr ⟨n, by simp [ofClass, hn, hcls], hid⟩
+
+/-- Balance over ANY list of pools: a node evicted from by one pool (node pass or prod pass) is not
+    evicted from by any later pool of the same Balance call - so the running estimate that pool compared
+    with its high threshold (`round_evict_sound`, `evictLoop_replay`) is the node's estimate over the whole
+    call, and the node is left alone once that pool is done with it. -/
+theorem balance_evicted_by_one_pool {P : Type} (selOf : P → Option Labels) (cfgOf : P → Cfg)
+    (mk : Nat → P → List Nat → RoundIn) (nodes : List (Nat × Labels)) (ps : List P) (st : St)
+    (hmk : ∀ i q ids, ∀ n ∈ (mk i q ids).nodes, n.id ∈ ids) :
+    ((balanceAll selOf cfgOf mk nodes ps st).2).Pairwise
+      (fun s1 s2 => ∀ e1 ∈ s1.evs, ∀ e2 ∈ s2.evs, e2.node ≠ e1.node) := by
+  have hpw := balancePools_sources_once selOf (fun i p ids st => poolStep (cfgOf p) (mk i p ids) st) nodes ps 0 st []
+  have hrun := balancePools_seg_run selOf (fun i p ids st => poolStep (cfgOf p) (mk i p ids) st) nodes ps 0 st []
+  unfold balanceAll
+  generalize (balancePools selOf (fun i p ids st => poolStep (cfgOf p) (mk i p ids) st) nodes 0 ps st []).2 = segs at hpw hrun
+  induction hpw with
+  | nil => exact List.Pairwise.nil
+  | @cons s1 rest hhead _ ih =>
+    refine List.Pairwise.cons ?_ (ih fun s hs => hrun s (List.mem_cons_of_mem _ hs))
+    intro s2 hs2 e1 he1 e2 he2 heq
+    obtain ⟨j1, q1, st1, _, _, _, hev1, hsrc1⟩ := hrun s1 List.mem_cons_self
+    obtain ⟨j2, q2, st2, _, _, _, hev2, _⟩ := hrun s2 (List.mem_cons_of_mem _ hs2)
+    rw [hev1] at he1
+    rw [hev2] at he2
+    have h1 := (poolStep_evs_sources _ _ _ e1 he1).2
+    obtain ⟨n2, hn2, hid2⟩ := (poolStep_evs_sources _ _ _ e2 he2).1
+    have hin : e2.node ∈ s2.ids := hid2 ▸ hmk j2 q2 s2.ids n2 hn2
+    rw [← hsrc1] at h1
+    exact hhead s2 hs2 e1.node h1 (heq ▸ hin)
+
+/-- every Evict call of a Balance call is sound for the pool that issued it (`round_evict_sound`):
+    at the call the pool's running estimate is above the pool's (prod) high threshold for that node and
+    every tracked resource of the receivers' headroom is positive; the node is one of the pool's nodes. -/
+theorem balance_evict_sound {P : Type} (selOf : P → Option Labels) (cfgOf : P → Cfg)
+    (mk : Nat → P → List Nat → RoundIn) (nodes : List (Nat × Labels)) (ps : List P) (st : St)
+    (hmk : ∀ i q ids, ∀ n ∈ (mk i q ids).nodes, n.id ∈ ids) :
+    ∀ s ∈ (balanceAll selOf cfgOf mk nodes ps st).2, ∀ e ∈ s.evs,
+      over e.usage e.high = true ∧ allPos e.avail = true ∧ e.node ∈ s.ids := by
+  intro s hs e he
+  obtain ⟨j, q, st0, _, _, _, hev, _⟩ :=
+    balancePools_seg_run selOf (fun i p ids st => poolStep (cfgOf p) (mk i p ids) st) nodes ps 0 st [] s hs
+  rw [hev] at he
+  have h := round_evict_sound (cfgOf q) st0 (mk j q s.ids) e he
+  obtain ⟨n, hn, hid⟩ := (poolStep_evs_sources _ _ _ e he).1
+  exact ⟨h.2.1, h.2.2.1, hid ▸ hmk j q s.ids n hn⟩
+
+/-- the document-level corollary: whatever the nodePools entries of the document are, the Balance
+    call over the converted pools (default pool first) touches no node twice. -/
+theorem converted_evicted_by_one_pool (a : VArgs) (cfgOf : CPool → Cfg)
+    (mk : Nat → CPool → List Nat → RoundIn) (nodes : List (Nat × Labels)) (st : St)
+    (hmk : ∀ i q ids, ∀ n ∈ (mk i q ids).nodes, n.id ∈ ids) :
+    ((balanceAll (·.sel) cfgOf mk nodes (convertPools a) st).2).Pairwise
+      (fun s1 s2 => ∀ e1 ∈ s1.evs, ∀ e2 ∈ s2.evs, e2.node ≠ e1.node) :=
+  balance_evicted_by_one_pool (·.sel) cfgOf mk nodes (convertPools a) st hmk
+
+/-! ### defaulting quirks of the anomaly condition -/
+
+theorem defaultTopCond_abn_pos (c : Option ACond) : (defaultTopCond c).abn > 0 := by
+  cases c with
+  | none => decide
+  | some c =>
+    by_cases h : c.abn = 0 <;> by_cases h2 : c.norm = 0 <;> simp [defaultTopCond, defaultCond, h, h2] <;> omega
+
+/-- the `else if` chain of SetDefaults_LowNodeLoadArgs: a present anomalyCondition with BOTH numbers
+    absent keeps consecutiveNormalities = 0 (and is then refused by the validation). -/
+theorem defaultTopCond_norm_zero_iff (c : ACond) :
+    (defaultTopCond (some c)).norm = 0 ↔ c.abn = 0 ∧ c.norm = 0 := by
+  simp only [defaultTopCond]
+  split
+  · rename_i h; simp [h]
+  · rename_i h
+    split
+    · simp [defaultCond, h]
+    · rename_i h2; simp [h, h2]
+
+-- non-vacuity: a document with top-level thresholds and two labelled entries, one inheriting everything, one with
+-- an EMPTY high map (kept, not inherited) and an anomaly number 0 (inherited)
+example : convertPools ⟨none, none, none, none, none, none, some [(0, 120)], some [(0, 200)], none, none, none, none,
+    [⟨1, some [(0, 1)], false, none, none, none, none, none, none⟩,
+     ⟨2, some [], false, some [(1, 100)], some [], none, none, some [(2, 3)], some ⟨0, 2⟩⟩]⟩
+    = [⟨0, none, false, some [(0, 120)], some [(0, 200)], none, none, some [(0, 1), (1, 1)], some ⟨5, 3⟩⟩,
+       ⟨1, some [(0, 1)], false, some [(0, 120)], some [(0, 200)], none, none, some [(0, 1), (1, 1)], some ⟨5, 3⟩⟩,
+       ⟨2, some [], false, some [(1, 100)], some [], none, none, some [(2, 3)], some ⟨5, 2⟩⟩] := by decide
+example : validArgs ⟨none, none, none, none, none, none, some [(0, 120)], some [(0, 200)], none, none, none, some ⟨0, 0⟩, []⟩ = false := by decide
+example : validArgs ⟨none, none, none, none, none, none, some [(0, 120)], some [(0, 200)], none, none, none, some ⟨0, 1⟩, []⟩ = true := by decide
+example : filterNodes none [(0, []), (1, [(0, 1)])] [0] = [1] := by decide
+example : filterNodes (some [(0, 1)]) [(0, []), (1, [(0, 1)]), (2, [(0, 1), (1, 0)])] [2] = [1] := by decide
 
 end KoordVerif.C18
